@@ -36,6 +36,7 @@ const (
 )
 
 type vCluEnv struct {
+	tableGone   bool // the script let hbase:meta answer "no such table" at least once
 	c           *client
 	made        map[string]int
 	clients     []*vCluRC
@@ -74,6 +75,7 @@ func (e *vCluEnv) misbehave() bool {
 }
 
 func (r *vCluRC) Dial(ctx context.Context) error {
+	verifJitter()
 	e := r.env
 	e.dials++
 	if e.closed {
@@ -92,11 +94,12 @@ func (r *vCluRC) Dial(ctx context.Context) error {
 	}
 	return nil
 }
-func (r *vCluRC) Close()         { r.closed++ }
+func (r *vCluRC) Close()         { verifJitter(); r.closed++ }
 func (r *vCluRC) Addr() string   { return r.addr }
 func (r *vCluRC) String() string { return r.addr }
 
 func (r *vCluRC) answer(c hrpc.Call) {
+	verifJitter()
 	e := r.env
 	if r.closed > 0 || r.dead {
 		c.ResultChan() <- hrpc.RPCResult{Error: region.ErrClientClosed}
@@ -140,9 +143,14 @@ func (e *vCluEnv) factory(addr string, ctype region.ClientType, queueSize int, f
 	return rc
 }
 
+// vRealLookup: natively the cut of lookupRegion is made per property (overlay); a job of such a
+// property that wants the real lookupRegion sets this (the engine cuts per job and ignores it).
+var vRealLookup bool
+
 // vLookupRegion replaces (*client).lookupRegion: hbase:meta answers from the script.
 func vLookupRegion(c *client, ctx context.Context, table, key []byte) (hrpc.RegionInfo, string, error) {
 	verifYield()
+	verifJitter()
 	e := vClu
 	e.lookups++
 	if e.closed {
@@ -179,6 +187,7 @@ func vLookupRegion(c *client, ctx context.Context, table, key []byte) (hrpc.Regi
 	k := string(start)
 	if e.misbehave() {
 		if verifBool() {
+			e.tableGone = true
 			return nil, "", TableNotFound
 		}
 		if e.replacedFor[k] == nil {
@@ -203,6 +212,7 @@ func vCluSetup() (*client, *vCluEnv) {
 	c.newRegionClientFn = e.factory
 	c.regionLookupTimeout = time.Second
 	sleepAndIncreaseBackoffOverride = func(ctx context.Context, b time.Duration) (time.Duration, error) {
+		verifJitter()
 		e.sleeps = append(e.sleeps, b)
 		if ctx.Err() != nil {
 			return 0, ctx.Err()
